@@ -11,6 +11,7 @@ import (
 	"sync"
 	"time"
 	"unicode"
+	"unsafe"
 
 	"github.com/blues/jsonata-go/jlib"
 	"github.com/blues/jsonata-go/jparse"
@@ -106,9 +107,12 @@ func Compile(expr string) (*Expr, error) {
 		node: node,
 	}
 
+	vpoint(vRLock, unsafe.Pointer(&globalRegistryMutex))
 	globalRegistryMutex.RLock()
+	vpoint(vRead, unsafe.Pointer(&globalRegistry))
 	e.updateRegistry(globalRegistry)
 	globalRegistryMutex.RUnlock()
+	vpoint(vRUnlock, unsafe.Pointer(&globalRegistryMutex))
 
 	return e, nil
 }
@@ -220,6 +224,8 @@ func (e *Expr) String() string {
 
 func (e *Expr) updateRegistry(values map[string]reflect.Value) {
 
+	vpoint(vWrite, unsafe.Pointer(&e.registry))
+
 	for name, v := range values {
 		if e.registry == nil {
 			e.registry = make(map[string]reflect.Value, len(values))
@@ -231,6 +237,8 @@ func (e *Expr) updateRegistry(values map[string]reflect.Value) {
 func (e *Expr) newEnv(input reflect.Value) *environment {
 
 	tc := timeCallables(time.Now())
+
+	vpoint(vRead, unsafe.Pointer(&e.registry))
 
 	env := newEnvironment(baseEnv, len(tc)+len(e.registry)+1)
 
@@ -340,7 +348,9 @@ func processVars(vars map[string]interface{}) (map[string]reflect.Value, error) 
 
 func updateGlobalRegistry(values map[string]reflect.Value) {
 
+	vpoint(vLock, unsafe.Pointer(&globalRegistryMutex))
 	globalRegistryMutex.Lock()
+	vpoint(vWrite, unsafe.Pointer(&globalRegistry))
 
 	for name, v := range values {
 		if globalRegistry == nil {
@@ -350,6 +360,7 @@ func updateGlobalRegistry(values map[string]reflect.Value) {
 	}
 
 	globalRegistryMutex.Unlock()
+	vpoint(vUnlock, unsafe.Pointer(&globalRegistryMutex))
 }
 
 func validName(s string) bool {
